@@ -34,6 +34,11 @@ type history struct {
 	Passes map[int][]int `json:"passes,omitempty"`
 	// Big: not a history but one push of a large content (big.go).
 	Big *bigCase `json:"big,omitempty"`
+	// Long: not a history but one long listing, names by family (long.go).
+	Long *longInput `json:"long,omitempty"`
+	// ErrSz: not a history but one failing call probed at error-body sizes around the
+	// client's limit (errsize.go).
+	ErrSz *errInput `json:"errsz,omitempty"`
 }
 
 // prePass is a pass the caller stopped, recorded with the complete pass that follows it.
